@@ -22,6 +22,32 @@ Fixpoint table_lookup (t : list (string * option string)) (a : string) : option 
 Definition run_validate (p : list (string * string) * list (string * option string)) : V :=
   Vresult (fun _ => VL []) (validate unit (fun a _ => table_lookup (snd p) a) (fst p) tt).
 
+(* ---- chain: (verification disabled, fingerprint list, chain) -> the
+        callback's result and the position of the certificate it recorded as
+        the remote certificate (-1: none).  A chain entry is None when
+        x509.ParseCertificate rejects the bytes, else the hash table of that
+        certificate ---- *)
+Definition hash_table : Type := list (string * option string).
+
+Definition run_chain (p : bool * list (string * string) * list (option hash_table)) : V :=
+  let '(disabled, fps, chain) := p in
+  let r := verify_peer (option hash_table) hash_table (fun x => x) (fun a t => table_lookup t a)
+                       disabled fps chain in
+  VL [Vresult (fun _ => VL []) (snd r);
+      VZ (match fst r with Some _ => 0 | None => (-1) end)%Z].
+
+(* ---- rawpeer: same input; [Start returned nil; DTLS reached connected]
+        under the assumed contract "the handshake completes iff the
+        verification callback returns nil" ---- *)
+Definition run_chain_conn (p : bool * list (string * string) * list (option hash_table)) : V :=
+  let '(disabled, fps, chain) := p in
+  let ok := match snd (verify_peer (option hash_table) hash_table (fun x => x)
+                                   (fun a t => table_lookup t a) disabled fps chain) with
+            | Ok _ => true
+            | _ => false
+            end in
+  VL [VB ok; VB ok].
+
 (* ---- advertise: (media-level flag, sha-256 value of the certificate,
         group attribute, mids) -> fingerprint attributes per level + what
         extractFingerprint makes of them ---- *)
